@@ -250,6 +250,9 @@ func c06Backend(name string) ociregistry.Interface {
 		b.UploadID = strings.Repeat("u", 5000)
 	case name == "rec-ok-idodd":
 		b.UploadID = "https://up.example/a b/é?x=%2F&y=+#frag"
+	case name == "rec-ok-closeerr":
+		// everything succeeds except that closing an upload writer fails (a fault at the very end)
+		b.CloseErr = fmt.Errorf("backend failed to close the upload writer")
 	case name == "rec-plain":
 		b.Err = fmt.Errorf("plain backend error")
 		b.CommitErr, b.WriteErr = b.Err, b.Err
@@ -342,6 +345,16 @@ func c06Run(r *vcore.Run, q c06Req) {
 		r.Outcome(fmt.Sprintf("%d", st))
 	case st >= 200 && st < 300:
 		hd := res.Header
+		// a success status never comes with an error document (e.g. an error discovered after the
+		// status line was written must not be appended to a 2xx response)
+		if bytes.Contains(body, []byte(`"errors"`)) && json.Valid(body) {
+			var we struct {
+				Errors []json.RawMessage `json:"errors"`
+			}
+			if json.Unmarshal(body, &we) == nil && len(we.Errors) > 0 {
+				viol("error-body-with-success-status", fmt.Sprintf("status %d without an error document", st), string(body))
+			}
+		}
 		needDigest := func() {
 			if d := hd.Get("Docker-Content-Digest"); !refDigest(d) {
 				viol("missing-or-malformed-Docker-Content-Digest", "a valid digest", d)
@@ -530,14 +543,14 @@ func c06Requests(thorough bool) []c06Req {
 		bks := recBackends
 		if k := c06Kind(c06Req{Path: sh.path}); k == "upload-start" || k == "upload-session" {
 			// backends whose own upload IDs are long or URL-like (the server turns them into Location headers)
-			bks = append(append([]string(nil), recBackends...), "rec-ok-id1k", "rec-ok-id5k", "rec-ok-idodd")
+			bks = append(append([]string(nil), recBackends...), "rec-ok-id1k", "rec-ok-id5k", "rec-ok-idodd", "rec-ok-closeerr")
 		}
 		for _, b := range bks {
 			for _, opts := range optsMenu {
 				if opts != "" && b != "mem" && b != "rec-ok" {
 					continue
 				}
-				if strings.HasPrefix(b, "rec-ok-id") && opts != "" {
+				if (strings.HasPrefix(b, "rec-ok-id") || b == "rec-ok-closeerr") && opts != "" {
 					continue
 				}
 				for _, qs := range queries {
